@@ -72,6 +72,8 @@ Definition scenario_inputs (scn : N) : list input :=
            TickReconnectDue 300; EvConnAttemptFailed true 300 ErrRefused;
            TickReconnectDue 300; CmdNewConnSca (outbound 1) true; EvPeerIdentity true (Some 300)]
   | 13 => inbound_fault 0 false ErrProtocol                     (* ZMTP/2.0 peer of incompatible type *)
+  | 14 => concat (map (fun k => inbound_fault (N.of_nat k) false (if Nat.even k then ErrReset else ErrProtocol)) (seq 0 120))
+          (* the same burst against a polling socket (RCVTIMEO = 0) on a 4-worker runtime *)
   | 30 => concat (map (fun k => [EvActorStarted; EvInprocRequest 8 false true true (inbound (N.of_nat k));
                                  EvActorStarted; EvActorStopping false (500 + N.of_nat k) None None;
                                  EvSocketClosing false; EvActorStopping false (900 + N.of_nat k) None None]) (seq 0 100))
